@@ -173,7 +173,9 @@ func randErr(rnd *rand.Rand, depth int, ill bool) *ErrSpec {
 	}
 	switch rnd.Intn(6) {
 	case 0:
-		return &ErrSpec{Kind: "wrap", Prefix: wrapPrefixes[rnd.Intn(len(wrapPrefixes))], Inner: randErr(rnd, depth-1, ill)}
+		// nothing ill-behaved under %w: fmt.Errorf renders the inner text when the wrapper is
+		// built (and recovers from a panicking Error method), which Model/Errors.v does not follow
+		return &ErrSpec{Kind: "wrap", Prefix: wrapPrefixes[rnd.Intn(len(wrapPrefixes))], Inner: randErr(rnd, depth-1, false)}
 	case 1, 2:
 		st := okStatuses[rnd.Intn(len(okStatuses))]
 		if rnd.Intn(8) == 0 {
